@@ -596,3 +596,52 @@ func BindAnyScenario(seed int64) (fails []string, line string) {
 	}
 	return fails, line
 }
+
+// AutoRemoveScenario: the piped source state is deactivated by an Auto state's Remove relation (an
+// auto transition, not a call naming the state): the target follows like for any deactivation.
+func AutoRemoveScenario(seed int64) (fails []string, line string) {
+	r := rand.New(rand.NewSource(seed))
+	line = fmt.Sprintf("autoremove seed=%d", seed)
+	ctx, cancel := context.WithCancel(context.Background())
+	defer cancel()
+	source := am.New(ctx, am.Schema{"Foo": {}, "Bar": {}, "Trig": {}, "Guard": {Auto: true, Require: am.S{"Trig"}, Remove: am.S{"Foo"}}},
+		&am.Opts{Id: fmt.Sprintf("arsrc%d", seed%100000)})
+	target := &safeTarget{Machine: am.New(ctx, am.Schema{"T1": {}, "T2": {}}, &am.Opts{Id: fmt.Sprintf("artgt%d", seed%100000)})}
+	defer func() { source.Dispose(); target.Dispose() }()
+	if _, err := ampipe.Bind(source, target, "Foo", "T1", ""); err != nil {
+		return []string{"binding failed: " + err.Error()}, line
+	}
+	if _, err := ampipe.Bind(source, target, "Bar", "T2", ""); err != nil {
+		return []string{"binding failed: " + err.Error()}, line
+	}
+	var hist []string
+	agree := func() bool {
+		return source.Is1("Foo") == target.Is1("T1") && source.Is1("Bar") == target.Is1("T2") && target.QueueLen() == 0
+	}
+	step := func(what string, f func()) bool {
+		f()
+		hist = append(hist, what)
+		if !waitUntil(700*time.Millisecond, agree) {
+			fails = append(fails, fmt.Sprintf("a piped state stopped following its source: after %s the source holds %v and the target %v (Guard is an Auto state that Removes Foo)",
+				strings.Join(hist, " "), source.ActiveStates(nil), target.ActiveStates(nil)))
+			fails = append(fails, target.failures()...)
+			return false
+		}
+		return true
+	}
+	for i, k := 0, 2+r.Intn(3); i < k; i++ {
+		if r.Intn(2) == 0 && !step("+Bar", func() { source.Add1("Bar", nil) }) {
+			return fails, line
+		}
+		if !step("+Foo", func() { source.Add1("Foo", nil) }) {
+			return fails, line
+		}
+		if !step("+Trig", func() { source.Add1("Trig", nil) }) {
+			return fails, line
+		}
+		if !step("-Trig,Guard", func() { source.Remove(am.S{"Trig", "Guard"}, nil) }) {
+			return fails, line
+		}
+	}
+	return append(fails, target.failures()...), line
+}
